@@ -135,4 +135,14 @@ MUTANTS = [
     ("hook-nested-defs-skipped", ["C10"], I, "        node.decorator_list.append(decorator)\n\n        self._parents.append(node)\n        self.generic_visit(node)", "        node.decorator_list.append(decorator)\n\n        self._parents.append(node)"),
     ("hook-class-body-skipped", ["C10"], I, "        node.decorator_list.insert(0, decorator)\n        self._parents.append(node)\n        self.generic_visit(node)", "        node.decorator_list.insert(0, decorator)\n        self._parents.append(node)"),
     # (hook-compile-inherits-flags: covered by seeded change C10-m1)
+    ("hook-startswith-no-dot", ["C11"], I, 'if module_name == module or module_name.startswith(module + "."):', "if module_name.startswith(module):"),
+    ("hook-equality-only", ["C11"], I, 'if module_name == module or module_name.startswith(module + "."):', "if module_name == module:"),
+    ("hook-uninstall-noop", ["C11"], I, "            sys.meta_path.remove(self.hook)", "            pass"),
+    ("hook-exit-noop", ["C11"], I, "    def __exit__(self, exc_type, exc_val, exc_tb):\n        self.uninstall()", "    def __exit__(self, exc_type, exc_val, exc_tb):\n        pass"),
+    ("hook-appended-not-first", ["C11"], I, "    sys.meta_path.insert(0, hook)", "    sys.meta_path.insert(max(0, i), hook)"),
+    ("hook-lookup-constant-key", ["C11"], I, "            Typechecker.lookup[self.hash] = vars[\"f\"]", "            self.hash = 'k'\n            Typechecker.lookup[self.hash] = vars[\"f\"]"),
+    ("hook-only-first-name", ["C11"], I, "        for module in self.modules:\n            if module_name", "        for module in self.modules[:1]:\n            if module_name"),
+    ("pytest-no-strip", ["C11"], "_pytest_plugin.py", "    packages = [pkg.strip() for pkg in value.split(\",\")]", "    packages = [pkg for pkg in value.split(\",\")]"),
+    ("pytest-checker-first", ["C11"], "_pytest_plugin.py", "    *packages, typechecker = packages", "    typechecker, *packages = packages"),
+    ("pytest-no-already-imported-check", ["C11"], "_pytest_plugin.py", "    if already_imported_packages:", "    if False:"),
 ]
